@@ -9,7 +9,8 @@
   * `evalInt`  – `S = Int` holding int16 values, every operation wrapped as Go wraps `Score`
                  (bit for bit the engine's `Eval[Score]`, including the truncating taper division), and
   * `evalQ σ`  – `S = Rat`, exact arithmetic, the sigmoid an abstract function `σ` (the exact-arithmetic
-                 reading of the tuner's `Eval[float64]`).
+                 reading of the tuner's `Eval[float64]`), and, as a stepping stone of C19 (a),
+  * `opsZ`     – `S = Int` without wrap-around (`noInt16Wrap cs i` says when `evalInt` agrees with it).
 
   What the evaluation can see of a board is the projection `EvalInput` (`Pieces`, `Colors`, `STM`,
   `FiftyCnt` — exactly the fields the extractor finds package eval reading, see
@@ -95,6 +96,46 @@ theorem boardFieldsRead_expected :
     Gen.Eval.boardFieldsRead = ["Colors", "FiftyCnt", "Pieces", "STM"] ∧
     Gen.Eval.boardFieldsWritten = [] ∧ Gen.Eval.pkgVarsWritten = [] ∧
     Gen.Eval.pkgVarsRead = ["KBCorners", "Phase", "sideOfBoard", "sigm"] := by decide
+
+
+/-- The versions of the functions of eval.go this hand model was written against (normalised-source
+    fingerprints; auxiliary alarm: ANY edit of a modelled function refutes this until the model has
+    been re-inspected and the list updated). -/
+theorem modelled_against : Gen.Eval.fingerprints = [
+  ("eval.Chebishev", "6f8441a380108b45"),
+  ("eval.Eval", "d8a941aafc090286"),
+  ("eval.KNBvK", "b1f77eaa6691d27a"),
+  ("eval.frontFill", "505fd542f98410f8"),
+  ("eval.insufficientMat", "f8eaf3d9871e62b2"),
+  ("eval.kingAttacks.addAttackPieces", "5b75ab9bd4422597"),
+  ("eval.kingAttacks.addSafeChecks", "8726975f277e6f02"),
+  ("eval.kingAttacks.addShelter", "7f4af6d35aa49d44"),
+  ("eval.kingAttacks.sigmoidal", "97bdfde30e975870"),
+  ("eval.pieceWise.calcBishopAttacks", "90c1c3fb9d80ee22"),
+  ("eval.pieceWise.calcCover", "8a737f873f159432"),
+  ("eval.pieceWise.calcKingSquares", "7c168fad063d6089"),
+  ("eval.pieceWise.calcKnightAttacks", "67c1942df4c99758"),
+  ("eval.pieceWise.calcOccupancy", "8d1a821852928eae"),
+  ("eval.pieceWise.calcPawnStructure", "75ff1250d0b5dc74"),
+  ("eval.pieceWise.calcQueenAttacks", "b9d182ea472d27e3"),
+  ("eval.pieceWise.calcRookAttacks", "11c52d875c60eddb"),
+  ("eval.scorePair.KNBvK", "55b533af56a0cb26"),
+  ("eval.scorePair.addBishopMobility", "ff78f13571966374"),
+  ("eval.scorePair.addBishopPair", "48aeee1bcdf34374"),
+  ("eval.scorePair.addDoubledPawns", "f4f40b241bc2f920"),
+  ("eval.scorePair.addIsolatedPawns", "9734ae62f7be5ddf"),
+  ("eval.scorePair.addKingAttacks", "8e7e47cc4499c174"),
+  ("eval.scorePair.addKnightMobility", "73d5ac2a7f069bef"),
+  ("eval.scorePair.addKnightOutposts", "e82b241afa2d2d0d"),
+  ("eval.scorePair.addPSqT", "74e8e6f89bfc71b9"),
+  ("eval.scorePair.addPassers", "14eb2c306d4cd2c4"),
+  ("eval.scorePair.addPieceValues", "781557a23ac9ff5f"),
+  ("eval.scorePair.addRookMobility", "227a96fb59a3dbe2"),
+  ("eval.scorePair.addTempo", "96a2f227e0a18257"),
+  ("eval.scorePair.endgameScore", "9b3fedd6ebb0b8c7"),
+  ("eval.scorePair.taperedScore", "a066a4c4087dd450"),
+  ("eval.sigmoidal", "a1482596d4c42c13")
+] := by decide
 
 /-! ## What the evaluation reads of a board -/
 
@@ -475,6 +516,47 @@ def opsI16 : Ops Int where
     let v := v * wrapS8 (100 - fifty)
     wrapS16 (goDiv (goDiv v maxPhase) 100)
 
+/-- exact integer arithmetic: no wrap-around, table sigmoid, truncating taper (what the engine's
+    `Eval[Score]` computes as long as no conversion to int16 changes a value). -/
+def opsZ : Ops Int where
+  ofInt n := n
+  add a b := a + b
+  sub a b := a - b
+  mulInt n x := n * x
+  sigmoid n := sigmTable n
+  taper mg eg mgPhase egPhase fifty :=
+    goDiv (goDiv ((mg * mgPhase + eg * egPhase) * (100 - fifty)) maxPhase) 100
+
+/-- `x` is an int16 value. -/
+def inRange16 (x : Int) : Bool := decide (-32768 ≤ x) && decide (x ≤ 32767)
+
+/-- every coefficient satisfies `p`. -/
+def CoeffSet.all {S : Type} (p : S → Bool) (cs : CoeffSet S) : Bool :=
+  cs.PSqT.all (·.all p) && cs.PieceValues.all (·.all p) && cs.TempoBonus.all p &&
+  cs.KingAttackPieces.all (·.all p) && cs.SafeChecks.all (·.all p) && cs.KingShelter.all p &&
+  cs.MobilityKnight.all (·.all p) && cs.MobilityBishop.all (·.all p) && cs.MobilityRook.all (·.all p) &&
+  cs.KnightOutpost.all (·.all p) && cs.ConnectedRooks.all p && cs.BishopPair.all p &&
+  cs.ProtectedPasser.all p && cs.PasserKingDist.all p && cs.PasserRank.all (·.all p) &&
+  cs.DoubledPawns.all p && cs.IsolatedPawns.all p
+
+/-- No conversion to int16 (or, for `100 - fifty`, to int8) that matters for the result changes a
+    value: the coefficients are int16 values, the halfmove clock is in `0..100`, and — computed in exact
+    integers — the four king-attack scores fed to the sigmoid table, the middle-game and end-game
+    differences fed to the taper (or the end-game difference of the KNB v K path) and the final result
+    are int16 values.  (Partial sums may wrap harmlessly: two's complement addition is exact modulo
+    2^16, so only the values that are *inspected* — table index, conversion to `int`, result — count.) -/
+def noInt16Wrap (cs : CoeffSet Int) (i : EvalInput) : Bool :=
+  cs.all inRange16 && decide (0 ≤ i.fifty) && decide (i.fifty ≤ 100) &&
+  inRange16 (evalCore opsZ cs i) &&
+  (if insufficientMat i then true
+   else if knbvk i then
+     inRange16 (sum opsZ (pieceValueTerms opsZ cs i 1 i.stm ++ knbvkTerms opsZ cs i 1 i.stm) -
+                sum opsZ (pieceValueTerms opsZ cs i 1 i.stm.flip ++ knbvkTerms opsZ cs i 1 i.stm.flip))
+   else
+     ([0, 1].all fun ph => [Color.white, Color.black].all fun c => inRange16 (sum opsZ (kaTerms opsZ cs i ph c))) &&
+     ([0, 1].all fun ph =>
+        inRange16 (sum opsZ (spTerms opsZ cs i ph i.stm) - sum opsZ (spTerms opsZ cs i ph i.stm.flip))))
+
 /-- exact rational arithmetic with an abstract sigmoid `σ`
     (taper: `v := mg*T(mgPhase) + eg*T(egPhase); v *= 100 - T(fifty); v / MaxPhase / 100`). -/
 def opsQ (σ : Rat → Rat) : Ops Rat where
@@ -535,6 +617,17 @@ def evalQ (σ : Rat → Rat) (cs : CoeffSet Rat) (b : Board) : Rat := evalCore (
 /-- `EngineRep.Eval`: white-relative sign. -/
 def tunerEvalQ (σ : Rat → Rat) (cs : CoeffSet Rat) (b : Board) : Rat :=
   if b.stm = .black then - evalQ σ cs b else evalQ σ cs b
+
+/-- The hypothesis of C19 (a) on the sigmoid: on every int16 argument it is within 1/2 of the table
+    entry the integer path uses (the table was produced by rounding).  Discharged numerically, outside
+    Lean, by the `tunereval` harness (suite B) for the real `600/(1+exp(-0.2(n-50)))` in float64. -/
+def TableNear (σ : Rat → Rat) : Prop :=
+  ∀ n : Int, -32768 ≤ n → n ≤ 32767 →
+    -(1 / 2 : Rat) ≤ σ (n : Rat) - (sigmTable n : Rat) ∧ σ (n : Rat) - (sigmTable n : Rat) ≤ 1 / 2
+
+/-- `EngineRep.Eval`'s sign convention applied to the integer evaluation. -/
+def tunerEvalInt (cs : CoeffSet Int) (b : Board) : Int :=
+  if b.stm = .black then - evalInt cs b else evalInt cs b
 
 /-! ## The mirror image of a position -/
 
